@@ -198,19 +198,15 @@ func VerifC16Total() {
 // assertion: resolution must end with an error or a value, never loop.
 func VerifC16Cyclic() {
 	cfg := &vCfg{}
-	mk := func() string {
-		x, y := nd.StringUpTo(1), nd.StringUpTo(1)
-		nd.Assume(vPlain(x) && vPlain(y))
-		switch nd.Choose(3) {
-		case 0:
-			return x + y
-		case 1:
-			return x + "${a}" + y
-		}
-		return x + "${b}" + y
+	ref := func() string {
+		return []string{"", "${a}", "${b}", "${c}", "${n:d}"}[nd.Choose(5)]
 	}
-	cfg.keys = []string{"a", "b"}
-	cfg.vals = []any{mk(), mk()}
+	mk := func() string {
+		x := []string{"", "x"}[nd.Choose(2)]
+		return x + ref() + ref()
+	}
+	cfg.keys = []string{"a", "b", "c"}
+	cfg.vals = []any{mk(), mk(), []string{"", "z"}[nd.Choose(2)]}
 	prop := component_definition.NewProperty(nil, component_definition.PropertyTypeConfiguration, "value", "${a}")
 	p := vQuoteProc(cfg)
 	_, err := p.PostProcessProperties([]*component_definition.Property{prop}, nil, "c")
